@@ -326,6 +326,8 @@ func IsBoolNode(n Node) bool {
 
 //@ func validateNode
 //@ props C04
+//@ propagates errors
+//@ loop 1 invariant [C04] no-pending: pendingErr() == nil
 //@ assumes depth-small: depth >= 0 && depth < 1073741824
 //@ assumes tree-unary: is[*UnaryNode](node) ==> as[*UnaryNode](node).operand == nil || as[*UnaryNode](node).operand != as[*UnaryNode](node).next
 //@ assumes tree-regex: is[*RegexNode](node) ==> as[*RegexNode](node).operand == nil || as[*RegexNode](node).operand != as[*RegexNode](node).next
@@ -343,6 +345,7 @@ func IsBoolNode(n Node) bool {
 
 //@ func New
 //@ props C04
+//@ propagates errors
 //@ ensures [C04] value-iff-ok: (r0 != nil) == (r1 == nil)
 //@ ensures [C04] fields: r1 == nil ==> r0.root == n && r0.lax == lax && r0.pred == pred && fresh(r0)
 
